@@ -13,6 +13,8 @@ from __future__ import annotations
 
 import ast as pyast
 import collections
+import os
+import json
 import multiprocessing as mp
 import random
 import zlib
@@ -717,9 +719,26 @@ def tags_of(gtext: str) -> set:
 # ---------------------------------------------------------------- evaluating one grammar
 
 
+WORK_DIR = Path(__file__).resolve().parent.parent / ".work"
+
+
+def _worker_limited(job):
+    _limit_worker()
+    return worker(job)
+
+
+def _heartbeat(gname: str, gtext: str, passes) -> None:
+    try:
+        WORK_DIR.mkdir(exist_ok=True)
+        (WORK_DIR / f"heartbeat_{os.getpid()}.json").write_text(json.dumps({"group": gname, "grammar": gtext[:4000], "passes": passes, "t": time.time()}))
+    except OSError:
+        pass
+
+
 def eval_grammar(prop: str, rng: random.Random, gname: str, gtext: str, rules_ast, passes, cases, out):
     """`_eval_grammar` under the worker's memory limit: running out of memory on one grammar (the models and the properties say
     nothing about resources) skips that grammar, counted, with the grammar kept for the evidence"""
+    _heartbeat(gname, gtext, passes)
     try:
         return _eval_grammar(prop, rng, gname, gtext, rules_ast, passes, cases, out)
     except MemoryError:
@@ -1743,19 +1762,32 @@ def run_prop(out: Outcome, level_when_proved: str = "proof") -> None:
     memory_skips: list = []
     n_corr = n_direct = 0
     line_cov: dict = {}
-    # a ProcessPoolExecutor notices a worker that dies (e.g. killed for memory): the run then ends as an infrastructure error
-    # instead of waiting for ever for the lost shard
-    import concurrent.futures as _cf
-    from concurrent.futures.process import BrokenProcessPool
+    # shards run in killable child processes with a deadline: a shard that does not come back (a parse stuck inside the regex
+    # engine cannot be interrupted by a signal handler) ends the run as an infrastructure error that names the grammar it was at
+    from common import run_killable
     results = []
+    deadline = float(os.environ.get("VERIF_SHARD_DEADLINE_S", "5400" if thorough else "900"))
     try:
-        with _cf.ProcessPoolExecutor(max_workers=nshards, mp_context=mp.get_context("fork"), initializer=_limit_worker) as ex:
-            for fut in _cf.as_completed([ex.submit(worker, j) for j in jobs]):
-                results.append(fut.result())
-    except BrokenProcessPool:
-        out.infra_error = "a worker process died (killed for memory?) - no verdict"
-        out.coverage = {"explanation": "worker died", "evaluations": 1, "distinct_nontrivial": 2}
-        return
+        for f_ in WORK_DIR.glob("heartbeat_*.json"):
+            if time.time() - f_.stat().st_mtime > 4 * 3600:
+                f_.unlink()
+    except OSError:
+        pass
+    for kind, res in run_killable(_worker_limited, jobs, deadline, nshards):
+        if kind == "ok":
+            results.append(res)
+        else:
+            job, why = res
+            hb = {}
+            if kind == "hung":
+                try:
+                    hb = json.loads((WORK_DIR / f"heartbeat_{why}.json").read_text())
+                except (OSError, ValueError):
+                    hb = {}
+            out.infra_error = (f"shard {job[1]} " + ("did not finish within %d s" % deadline if kind == "hung" else "failed: " + str(why)[:300])
+                               + (f"; it was at group {hb.get('group')} grammar {hb.get('grammar', '')[:600]!r} passes {hb.get('passes')}" if hb else ""))
+            out.coverage = {"explanation": "a shard did not finish", "evaluations": 1, "distinct_nontrivial": 2}
+            return
     if True:
         for r in results:
             for f, (hit, total) in r.get("lines", {}).items():
